@@ -1,69 +1,1393 @@
+// obs-sqltext sends generated list filters (filter trees over every key each listing accepts, hostile string values)
+// through the REAL ledgerstore query builders and the REAL v1/v2 HTTP handlers, captures the complete SQL text a
+// recording database/sql driver receives (bun inlines every argument client-side, so this is what PostgreSQL would
+// get), applies the C20 oracle (quote automaton: the statement has the same structure as for the harmless twin of the
+// filter, and the client's text lies inside literals), and writes each (listing, filter, captured WHERE fragment) as
+// a Coq case for SqlText/Model.v.
 package main
 
 import (
+	"bytes"
 	"context"
 	"database/sql"
+	"encoding/hex"
+	"encoding/json"
 	"fmt"
+	"io"
+	"net/http"
+	"net/http/httptest"
+	"net/url"
+	"regexp"
+	"sort"
+	"strings"
+	"time"
+	"unicode/utf8"
 
+	ledger "github.com/formancehq/ledger/internal"
+	v1 "github.com/formancehq/ledger/internal/api/v1"
+	v2 "github.com/formancehq/ledger/internal/api/v2"
+	"github.com/formancehq/ledger/internal/api/backend"
+	"github.com/formancehq/ledger/internal/opentelemetry/metrics"
 	"github.com/formancehq/ledger/internal/storage/ledgerstore"
+	"github.com/formancehq/ledger/verifx/fakeapi"
 	"github.com/formancehq/ledger/verifx/fakesql/recorder"
+	"github.com/formancehq/ledger/verifx/vx"
+	sharedapi "github.com/formancehq/stack/libs/go-libs/api"
+	"github.com/formancehq/stack/libs/go-libs/auth"
+	"github.com/formancehq/stack/libs/go-libs/health"
+	"github.com/formancehq/stack/libs/go-libs/logging"
 	"github.com/formancehq/stack/libs/go-libs/query"
+	"github.com/go-chi/chi/v5"
+	"github.com/sirupsen/logrus"
 	"github.com/uptrace/bun"
 	"github.com/uptrace/bun/dialect/pgdialect"
 )
 
-func main() {
-	rec := recorder.New()
-	db := bun.NewDB(sql.OpenDB(rec), pgdialect.New(), bun.WithDiscardUnknownColumns())
-	st := ledgerstore.NewStoreForVerif(db, "bucket0", "ledger0")
-	ctx := context.Background()
-	show := func(name string, f func() error) {
-		func() {
-			defer func() {
-				if r := recover(); r != nil {
-					fmt.Println(name, "PANIC", r)
-				}
-			}()
-			err := f()
-			fmt.Println("==", name, "err=", err)
-		}()
-		for _, s := range rec.Take() {
-			fmt.Printf("   [%s args=%d] %s\n", s.Kind, s.Args, s.SQL)
+// ---- inputs (byte exact in JSON) ---------------------------------------------------------------------
+
+// BStr is a byte string that survives JSON: text when it is printable valid UTF-8, {"hex": ...} otherwise.
+type BStr string
+
+func (b BStr) MarshalJSON() ([]byte, error) {
+	s := string(b)
+	ok := utf8.ValidString(s)
+	for i := 0; ok && i < len(s); i++ {
+		if s[i] < 0x20 || s[i] == 0x7f {
+			ok = false
 		}
 	}
-	for _, v := range []any{"abc", "a' or 1=1 --", "a:", "x?(", `a\?b`, "?TableName ?0 ?", 1.5, map[string]any{"a": "x'y"}} {
-		v := v
-		show(fmt.Sprint("acc address ", v), func() error {
-			_, err := st.GetAccountsWithVolumes(ctx, ledgerstore.NewGetAccountsQuery(ledgerstore.NewPaginatedQueryOptions(ledgerstore.PITFilterWithVolumes{}).WithQueryBuilder(query.Match("address", v))))
-			return err
-		})
-		show(fmt.Sprint("acc meta ", v), func() error {
-			_, err := st.GetAccountsWithVolumes(ctx, ledgerstore.NewGetAccountsQuery(ledgerstore.NewPaginatedQueryOptions(ledgerstore.PITFilterWithVolumes{}).WithQueryBuilder(query.Match("metadata[k'?]", v))))
-			return err
-		})
-		show(fmt.Sprint("count acc meta ", v), func() error {
-			_, err := st.CountAccounts(ctx, ledgerstore.NewGetAccountsQuery(ledgerstore.NewPaginatedQueryOptions(ledgerstore.PITFilterWithVolumes{}).WithQueryBuilder(query.Match("metadata[k]", v))))
-			return err
-		})
-		show(fmt.Sprint("tx ref ", v), func() error {
-			_, err := st.GetTransactions(ctx, ledgerstore.NewGetTransactionsQuery(ledgerstore.NewPaginatedQueryOptions(ledgerstore.PITFilterWithVolumes{}).WithQueryBuilder(query.Match("reference", v))))
-			return err
-		})
-		show(fmt.Sprint("count tx ref ", v), func() error {
-			_, err := st.CountTransactions(ctx, ledgerstore.NewGetTransactionsQuery(ledgerstore.NewPaginatedQueryOptions(ledgerstore.PITFilterWithVolumes{}).WithQueryBuilder(query.Match("reference", v))))
-			return err
-		})
-		show(fmt.Sprint("tx account ", v), func() error {
-			_, err := st.GetTransactions(ctx, ledgerstore.NewGetTransactionsQuery(ledgerstore.NewPaginatedQueryOptions(ledgerstore.PITFilterWithVolumes{}).WithQueryBuilder(query.Match("account", v))))
-			return err
-		})
-		show(fmt.Sprint("bal address ", v), func() error {
-			_, err := st.GetAggregatedBalances(ctx, ledgerstore.NewGetAggregatedBalancesQuery(ledgerstore.NewPaginatedQueryOptions(ledgerstore.PITFilter{}).WithQueryBuilder(query.Match("address", v))))
-			return err
-		})
-		show(fmt.Sprint("logs date ", v), func() error {
-			_, err := st.GetLogs(ctx, ledgerstore.NewGetLogsQuery(ledgerstore.NewPaginatedQueryOptions[any](nil).WithQueryBuilder(query.Lt("date", v))))
-			return err
+	if ok && !strings.Contains(s, "\u2028") && !strings.Contains(s, "\u2029") && !strings.Contains(s, "\ufffd") {
+		return json.Marshal(s)
+	}
+	return json.Marshal(map[string]string{"hex": hex.EncodeToString([]byte(s))})
+}
+func (b *BStr) UnmarshalJSON(d []byte) error {
+	var s string
+	if json.Unmarshal(d, &s) == nil {
+		*b = BStr(s)
+		return nil
+	}
+	var m map[string]string
+	if err := json.Unmarshal(d, &m); err != nil {
+		return err
+	}
+	raw, err := hex.DecodeString(m["hex"])
+	*b = BStr(raw)
+	return err
+}
+
+// Val is a filter value: what json.Unmarshal into `any` can produce, or a Go string.
+type Val struct {
+	K string  `json:"k"` // str | int | float | bool | null | arr | obj
+	S BStr    `json:"s,omitempty"`
+	I int64   `json:"i,omitempty"`
+	F float64 `json:"f,omitempty"`
+	B bool    `json:"b,omitempty"`
+	A []Val   `json:"a,omitempty"`
+	O []KV    `json:"o,omitempty"`
+}
+type KV struct {
+	K BStr `json:"k"`
+	V Val  `json:"v"`
+}
+
+// Node is a filter tree.
+type Node struct {
+	T     string `json:"t"` // leaf | and | or | not
+	Key   BStr   `json:"key,omitempty"`
+	Op    string `json:"op,omitempty"` // $match $lt $lte $gt $gte
+	Val   *Val   `json:"val,omitempty"`
+	Items []Node `json:"items,omitempty"`
+}
+
+type Input struct {
+	Listing string `json:"listing"` // accounts | transactions | balances | logs
+	PIT     string `json:"pit"`     // nil | zero | set
+	Expand  bool   `json:"expand,omitempty"`
+	Tree    Node   `json:"tree"`
+}
+
+func (v Val) goValue() any {
+	switch v.K {
+	case "str":
+		return string(v.S)
+	case "int":
+		return float64(v.I)
+	case "float":
+		return v.F
+	case "bool":
+		return v.B
+	case "null":
+		return nil
+	case "arr":
+		out := make([]any, 0, len(v.A))
+		for _, x := range v.A {
+			out = append(out, x.goValue())
+		}
+		return out
+	case "obj":
+		out := map[string]any{}
+		for _, kv := range v.O {
+			out[string(kv.K)] = kv.V.goValue()
+		}
+		return out
+	}
+	return nil
+}
+
+func (n Node) builder() query.Builder {
+	switch n.T {
+	case "leaf":
+		var v any
+		if n.Val != nil {
+			v = n.Val.goValue()
+		}
+		k := string(n.Key)
+		switch n.Op {
+		case "$lt":
+			return query.Lt(k, v)
+		case "$lte":
+			return query.Lte(k, v)
+		case "$gt":
+			return query.Gt(k, v)
+		case "$gte":
+			return query.Gte(k, v)
+		}
+		return query.Match(k, v)
+	case "not":
+		if len(n.Items) == 1 {
+			return query.Not(n.Items[0].builder())
+		}
+		return query.Not(query.And())
+	}
+	items := make([]query.Builder, 0, len(n.Items))
+	for _, it := range n.Items {
+		items = append(items, it.builder())
+	}
+	if n.T == "or" {
+		return query.Or(items...)
+	}
+	return query.And(items...)
+}
+
+func (n Node) leaves(f func(*Node)) {
+	if n.T == "leaf" {
+		f(&n)
+		return
+	}
+	for i := range n.Items {
+		n.Items[i].leaves(f)
+	}
+}
+
+// ---- key classes and the harmless twin (mirrors harmless of SqlText/Model.v; tied by the Coq cases) ---------
+
+var metaRe = regexp.MustCompile("metadata\\[(.+)\\]")
+var balRe = regexp.MustCompile("balance\\[(.*)\\]")
+
+func keyClass(listing, key string) string {
+	switch listing {
+	case "accounts":
+		switch {
+		case key == "address":
+			return "addr"
+		case metaRe.MatchString(key):
+			return "meta"
+		case balRe.MatchString(key):
+			return "bal"
+		}
+	case "transactions":
+		switch {
+		case key == "reference" || key == "timestamp":
+			return "other"
+		case key == "account" || key == "source" || key == "destination":
+			return "addr"
+		case metaRe.MatchString(key):
+			return "meta"
+		}
+	case "balances":
+		switch {
+		case key == "address":
+			return "addr"
+		case metaRe.MatchString(key):
+			return "meta"
+		}
+	}
+	return "other"
+}
+
+func harmlessAddr(a string) string {
+	b := []byte(a)
+	for i := range b {
+		if b[i] != ':' {
+			b[i] = 'x'
+		}
+	}
+	return string(b)
+}
+
+func harmlessVal(v *Val) *Val {
+	if v == nil {
+		return nil
+	}
+	switch v.K {
+	case "str":
+		return &Val{K: "str", S: "abc"}
+	case "arr":
+		return &Val{K: "arr", A: []Val{{K: "str", S: "abc"}}}
+	case "obj":
+		return &Val{K: "obj", O: []KV{{K: "abc", V: Val{K: "str", S: "abc"}}}}
+	}
+	c := *v
+	return &c
+}
+
+func twin(listing string, n Node) Node {
+	if n.T == "leaf" {
+		out := Node{T: "leaf", Key: n.Key, Op: n.Op}
+		switch keyClass(listing, string(n.Key)) {
+		case "addr":
+			if n.Val != nil && n.Val.K == "str" {
+				out.Val = &Val{K: "str", S: BStr(harmlessAddr(string(n.Val.S)))}
+			} else {
+				out.Val = harmlessVal(n.Val)
+			}
+		case "meta":
+			out.Key, out.Val = "metadata[abc]", harmlessVal(n.Val)
+		case "bal":
+			out.Key, out.Val = "balance[abc]", harmlessVal(n.Val)
+		default:
+			out.Val = harmlessVal(n.Val)
+		}
+		return out
+	}
+	out := Node{T: n.T}
+	for _, it := range n.Items {
+		out.Items = append(out.Items, twin(listing, it))
+	}
+	return out
+}
+
+// ---- the quote automaton, blanking and tokens (port of scan / blank / tokens of SqlText/Model.v) -----------------
+
+type qs struct {
+	k int // state
+	d int // comment depth
+}
+
+const (
+	sCode = iota
+	sCodeE
+	sCodeDash
+	sCodeSlash
+	sInLit
+	sInLitQ
+	sInIdent
+	sInIdentQ
+	sLineC
+	sBlockC
+	sBlockCStar
+	sBlockCSlash
+	sBad
+)
+
+func stepCode(c byte) qs {
+	switch {
+	case c == '\'':
+		return qs{k: sInLit}
+	case c == '"':
+		return qs{k: sInIdent}
+	case c == '-':
+		return qs{k: sCodeDash}
+	case c == '/':
+		return qs{k: sCodeSlash}
+	case c == 'e' || c == 'E':
+		return qs{k: sCodeE}
+	case c == '$':
+		return qs{k: sBad}
+	}
+	return qs{k: sCode}
+}
+
+func step(q qs, c byte) qs {
+	switch q.k {
+	case sCode:
+		return stepCode(c)
+	case sCodeE:
+		if c == '\'' {
+			return qs{k: sBad}
+		}
+		return stepCode(c)
+	case sCodeDash:
+		if c == '-' {
+			return qs{k: sLineC}
+		}
+		return stepCode(c)
+	case sCodeSlash:
+		if c == '*' {
+			return qs{k: sBlockC}
+		}
+		return stepCode(c)
+	case sInLit:
+		if c == '\'' {
+			return qs{k: sInLitQ}
+		}
+		return q
+	case sInLitQ:
+		if c == '\'' {
+			return qs{k: sInLit}
+		}
+		return stepCode(c)
+	case sInIdent:
+		if c == '"' {
+			return qs{k: sInIdentQ}
+		}
+		return q
+	case sInIdentQ:
+		if c == '"' {
+			return qs{k: sInIdent}
+		}
+		return stepCode(c)
+	case sLineC:
+		if c == '\n' || c == '\r' {
+			return qs{k: sCode}
+		}
+		return q
+	case sBlockC:
+		if c == '*' {
+			return qs{sBlockCStar, q.d}
+		}
+		if c == '/' {
+			return qs{sBlockCSlash, q.d}
+		}
+		return q
+	case sBlockCStar:
+		if c == '/' {
+			if q.d == 0 {
+				return qs{k: sCode}
+			}
+			return qs{sBlockC, q.d - 1}
+		}
+		if c == '*' {
+			return q
+		}
+		return qs{sBlockC, q.d}
+	case sBlockCSlash:
+		if c == '*' {
+			return qs{sBlockC, q.d + 1}
+		}
+		if c == '/' {
+			return q
+		}
+		return qs{sBlockC, q.d}
+	}
+	return qs{k: sBad}
+}
+
+type scanResult struct {
+	final   qs
+	comment bool   // a comment state was entered
+	bad     bool   // the absorbing state was entered
+	states  []int8 // state in which byte i is consumed (before the step)
+	blank   string
+}
+
+func scanSQL(s string) scanResult {
+	q := qs{k: sCode}
+	r := scanResult{states: make([]int8, len(s))}
+	var b strings.Builder
+	for i := 0; i < len(s); i++ {
+		c := s[i]
+		r.states[i] = int8(q.k)
+		switch q.k {
+		case sInLit:
+		case sInLitQ:
+			if c != '\'' {
+				b.WriteByte(c)
+			}
+		default:
+			b.WriteByte(c)
+		}
+		q = step(q, c)
+		if q.k == sLineC || q.k == sBlockC {
+			r.comment = true
+		}
+		if q.k == sBad {
+			r.bad = true
+		}
+	}
+	r.final, r.blank = q, b.String()
+	return r
+}
+
+func isWordChar(c byte) bool {
+	return c >= '0' && c <= '9' || c >= 'a' && c <= 'z' || c >= 'A' && c <= 'Z' || c == '_' || c == '.' || c == '"'
+}
+
+// tokens of a blanked text (a literal is the single character '), as tokens of the model
+func tokenCount(blank string) int {
+	n, inWord := 0, false
+	for i := 0; i < len(blank); i++ {
+		c := blank[i]
+		if isWordChar(c) {
+			if !inWord {
+				n++
+				inWord = true
+			}
+			continue
+		}
+		inWord = false
+		if c == ' ' || c == '\n' || c == '\r' || c == '\t' {
+			continue
+		}
+		n++
+	}
+	return n
+}
+
+// ---- running the real store -----------------------------------------------------------------------------------
+
+type harness struct {
+	rec   *recorder.Recorder
+	store *ledgerstore.Store
+	v1r   chi.Router
+	v2r   chi.Router
+}
+
+const ledgerName = "ledger0"
+
+var pitTime = ledger.Time{Time: time.Date(2023, 6, 1, 12, 0, 0, 0, time.UTC)}
+
+func newHarness() *harness {
+	rec := recorder.New()
+	db := bun.NewDB(sql.OpenDB(rec), pgdialect.New(), bun.WithDiscardUnknownColumns())
+	st := ledgerstore.NewStoreForVerif(db, "bucket0", ledgerName)
+	h := &harness{rec: rec, store: st}
+	b := &storeBackend{Backend: &fakeapi.Backend{L: &fakeapi.Ledger{}}, l: &storeLedger{Ledger: &fakeapi.Ledger{}, st: st}}
+	h.v1r = v1.NewRouter(b, &health.HealthController{}, metrics.NewNoOpRegistry(), auth.NewNoAuth())
+	h.v2r = v2.NewRouter(b, &health.HealthController{}, metrics.NewNoOpRegistry(), auth.NewNoAuth())
+	return h
+}
+
+// storeLedger answers the list/count reads of backend.Ledger with the real store (everything else is scripted).
+type storeLedger struct {
+	*fakeapi.Ledger
+	st *ledgerstore.Store
+}
+
+func (l *storeLedger) GetAccountsWithVolumes(ctx context.Context, q ledgerstore.GetAccountsQuery) (*sharedapi.Cursor[ledger.ExpandedAccount], error) {
+	return l.st.GetAccountsWithVolumes(ctx, q)
+}
+func (l *storeLedger) CountAccounts(ctx context.Context, q ledgerstore.GetAccountsQuery) (int, error) {
+	return l.st.CountAccounts(ctx, q)
+}
+func (l *storeLedger) GetAggregatedBalances(ctx context.Context, q ledgerstore.GetAggregatedBalanceQuery) (ledger.BalancesByAssets, error) {
+	return l.st.GetAggregatedBalances(ctx, q)
+}
+func (l *storeLedger) GetLogs(ctx context.Context, q ledgerstore.GetLogsQuery) (*sharedapi.Cursor[ledger.ChainedLog], error) {
+	return l.st.GetLogs(ctx, q)
+}
+func (l *storeLedger) CountTransactions(ctx context.Context, q ledgerstore.GetTransactionsQuery) (int, error) {
+	return l.st.CountTransactions(ctx, q)
+}
+func (l *storeLedger) GetTransactions(ctx context.Context, q ledgerstore.GetTransactionsQuery) (*sharedapi.Cursor[ledger.ExpandedTransaction], error) {
+	return l.st.GetTransactions(ctx, q)
+}
+
+type storeBackend struct {
+	*fakeapi.Backend
+	l backend.Ledger
+}
+
+func (b *storeBackend) GetLedgerEngine(ctx context.Context, name string) (backend.Ledger, error) {
+	return b.l, nil
+}
+
+// outcome of one call: the statements the driver received, and the error class of a rejected filter
+type outcome struct {
+	SQL []string
+	Err string // "" | invalid | other | panic
+}
+
+func (o outcome) one() string {
+	if len(o.SQL) == 1 {
+		return o.SQL[0]
+	}
+	return strings.Join(o.SQL, "\n;;\n")
+}
+func (o outcome) rejected() bool { return len(o.SQL) == 0 }
+
+func (h *harness) pit(p string) *ledger.Time {
+	switch p {
+	case "zero":
+		return &ledger.Time{}
+	case "set":
+		t := pitTime
+		return &t
+	}
+	return nil
+}
+
+func (h *harness) runStore(in Input, count bool, qb query.Builder) (out outcome) {
+	h.rec.Take()
+	ctx := context.Background()
+	var err error
+	func() {
+		defer func() {
+			if r := recover(); r != nil {
+				out.Err = "panic"
+			}
+		}()
+		pv := ledgerstore.PITFilterWithVolumes{PITFilter: ledgerstore.PITFilter{PIT: h.pit(in.PIT)}, ExpandVolumes: in.Expand, ExpandEffectiveVolumes: in.Expand}
+		switch in.Listing {
+		case "accounts":
+			q := ledgerstore.NewGetAccountsQuery(ledgerstore.NewPaginatedQueryOptions(pv).WithQueryBuilder(qb))
+			if count {
+				_, err = h.store.CountAccounts(ctx, q)
+			} else {
+				_, err = h.store.GetAccountsWithVolumes(ctx, q)
+			}
+		case "transactions":
+			q := ledgerstore.NewGetTransactionsQuery(ledgerstore.NewPaginatedQueryOptions(pv).WithQueryBuilder(qb))
+			if count {
+				_, err = h.store.CountTransactions(ctx, q)
+			} else {
+				_, err = h.store.GetTransactions(ctx, q)
+			}
+		case "balances":
+			q := ledgerstore.NewGetAggregatedBalancesQuery(ledgerstore.NewPaginatedQueryOptions(ledgerstore.PITFilter{PIT: h.pit(in.PIT)}).WithQueryBuilder(qb))
+			_, err = h.store.GetAggregatedBalances(ctx, q)
+		case "logs":
+			q := ledgerstore.NewGetLogsQuery(ledgerstore.NewPaginatedQueryOptions[any](nil).WithQueryBuilder(qb))
+			_, err = h.store.GetLogs(ctx, q)
+		}
+	}()
+	for _, s := range h.rec.Take() {
+		if s.Kind == "query" || s.Kind == "exec" {
+			out.SQL = append(out.SQL, s.SQL)
+		}
+	}
+	if len(out.SQL) == 0 && out.Err == "" {
+		switch {
+		case err == nil:
+			out.Err = "none"
+		case ledgerstore.IsErrInvalidQuery(err):
+			out.Err = "invalid"
+		default:
+			out.Err = "other"
+		}
+	}
+	return out
+}
+
+func hasCount(listing string) bool { return listing == "accounts" || listing == "transactions" }
+
+// the fragment of the WHERE clause that renders `tree`, cut out between two harmless sentinel clauses
+func (h *harness) fragment(in Input, count bool, tree Node) (frag string, o outcome, ok bool) {
+	var l, r query.Builder
+	if in.Listing == "logs" {
+		l, r = query.Lt("date", "verifL0"), query.Lt("date", "verifR0")
+	} else {
+		l, r = query.Match("metadata[verifL0]", "x"), query.Match("metadata[verifR0]", "y")
+	}
+	o = h.runStore(in, count, query.And(l, tree.builder(), r))
+	if o.rejected() || len(o.SQL) != 1 {
+		return "", o, false
+	}
+	s := o.SQL[0]
+	i := strings.Index(s, "verifL0")
+	j := strings.LastIndex(s, "verifR0")
+	if i < 0 || j < 0 {
+		return "", o, false
+	}
+	a := strings.Index(s[i:], ") and (")
+	if a < 0 {
+		return "", o, false
+	}
+	start := i + a + len(") and (")
+	b := strings.LastIndex(s[:j], ") and (")
+	if b < start {
+		return "", o, false
+	}
+	return s[start:b], o, true
+}
+
+// ---- HTTP -----------------------------------------------------------------------------------------------------
+
+func jsonStrRaw(s string) string { // a JSON string that keeps the bytes of s (only the mandatory escapes)
+	var b strings.Builder
+	b.WriteByte('"')
+	for i := 0; i < len(s); i++ {
+		c := s[i]
+		switch {
+		case c == '"' || c == '\\':
+			b.WriteByte('\\')
+			b.WriteByte(c)
+		case c < 0x20:
+			fmt.Fprintf(&b, "\\u%04x", c)
+		default:
+			b.WriteByte(c)
+		}
+	}
+	b.WriteByte('"')
+	return b.String()
+}
+
+func (v Val) jsonText() (string, bool) {
+	switch v.K {
+	case "str":
+		return jsonStrRaw(string(v.S)), true
+	case "int":
+		return fmt.Sprint(v.I), true
+	case "float":
+		b, err := json.Marshal(v.F)
+		return string(b), err == nil
+	case "bool":
+		return fmt.Sprint(v.B), true
+	case "null":
+		return "null", true
+	case "arr":
+		var parts []string
+		for _, x := range v.A {
+			t, ok := x.jsonText()
+			if !ok {
+				return "", false
+			}
+			parts = append(parts, t)
+		}
+		return "[" + strings.Join(parts, ",") + "]", true
+	case "obj":
+		var parts []string
+		seen := map[string]bool{}
+		for _, kv := range v.O {
+			if seen[string(kv.K)] {
+				return "", false
+			}
+			seen[string(kv.K)] = true
+			t, ok := kv.V.jsonText()
+			if !ok {
+				return "", false
+			}
+			parts = append(parts, jsonStrRaw(string(kv.K))+":"+t)
+		}
+		return "{" + strings.Join(parts, ",") + "}", true
+	}
+	return "", false
+}
+
+// v2 body; not every tree can be written (no `not` in the JSON syntax)
+func (n Node) v2Body() (string, bool) {
+	switch n.T {
+	case "leaf":
+		if n.Val == nil {
+			return "", false
+		}
+		v, ok := n.Val.jsonText()
+		if !ok {
+			return "", false
+		}
+		return fmt.Sprintf(`{%s:{%s:%s}}`, jsonStrRaw(n.Op), jsonStrRaw(string(n.Key)), v), true
+	case "and", "or":
+		var parts []string
+		for _, it := range n.Items {
+			t, ok := it.v2Body()
+			if !ok {
+				return "", false
+			}
+			parts = append(parts, t)
+		}
+		return fmt.Sprintf(`{"$%s":[%s]}`, n.T, strings.Join(parts, ",")), true
+	}
+	return "", false
+}
+
+// v1 query parameters derivable from the leaves (at most one metadata parameter: the handler iterates a Go map),
+// together with the parameters of the harmless twin request
+func v1Params(in Input) (url.Values, url.Values, bool) {
+	q, t := url.Values{}, url.Values{}
+	meta := false
+	in.Tree.leaves(func(n *Node) {
+		if n.Val == nil || n.Val.K != "str" || len(n.Val.S) == 0 {
+			return
+		}
+		k, v := string(n.Key), string(n.Val.S)
+		set := func(param string) {
+			if q.Get(param) != "" {
+				return
+			}
+			q.Set(param, v)
+			switch keyClass(in.Listing, k) {
+			case "addr":
+				t.Set(param, harmlessAddr(v))
+			case "meta":
+				t.Set("metadata[abc]", "abc")
+			default:
+				t.Set(param, "abc")
+			}
+		}
+		switch in.Listing {
+		case "accounts", "balances":
+			if k == "address" {
+				set("address")
+			}
+			if in.Listing == "accounts" && strings.HasPrefix(k, "metadata") && !meta {
+				meta = true
+				set(k)
+			}
+		case "transactions":
+			for _, p := range []string{"reference", "account", "source", "destination"} {
+				if k == p {
+					set(p)
+				}
+			}
+			if strings.HasPrefix(k, "metadata") && !meta {
+				meta = true
+				set(k)
+			}
+		case "logs":
+			if k == "date" && n.Op == "$gte" {
+				set("start_time")
+			}
+			if k == "date" && n.Op == "$lt" {
+				set("end_time")
+			}
+		}
+	})
+	return q, t, len(q) > 0
+}
+
+func (h *harness) runHTTP(router chi.Router, method, path string, q url.Values, body string) outcome {
+	h.rec.Take()
+	u := "/" + ledgerName + path
+	if len(q) > 0 {
+		u += "?" + q.Encode()
+	}
+	req := httptest.NewRequest(method, u, bytes.NewBufferString(body))
+	req = req.WithContext(logging.ContextWithLogger(req.Context(), quiet))
+	rec := httptest.NewRecorder()
+	router.ServeHTTP(rec, req)
+	var out outcome
+	for _, s := range h.rec.Take() {
+		if s.Kind == "query" || s.Kind == "exec" {
+			out.SQL = append(out.SQL, s.SQL)
+		}
+	}
+	if len(out.SQL) == 0 {
+		out.Err = fmt.Sprint(rec.Code)
+	}
+	return out
+}
+
+var quiet = func() logging.Logger {
+	l := logrus.New()
+	l.SetOutput(io.Discard)
+	return logging.NewLogrus(l)
+}()
+
+type httpCall struct {
+	via, method, path string
+	q                 url.Values
+	body              string
+	tq                url.Values // the twin request
+	tbody             string
+}
+
+func httpCalls(in Input, tw Node) []httpCall {
+	var calls []httpCall
+	paths := map[string][]string{"accounts": {"/accounts"}, "transactions": {"/transactions"}, "balances": {"/aggregate/balances"}, "logs": {"/logs"}}[in.Listing]
+	logsOK := true
+	if in.Listing == "logs" { // an unknown key makes the log listing panic (recovered by chi, printed on stderr): keep to `date`
+		in.Tree.leaves(func(n *Node) {
+			if n.Key != "date" {
+				logsOK = false
+			}
 		})
 	}
+	body, ok := in.Tree.v2Body()
+	tbody, tok := tw.v2Body()
+	if ok && tok && logsOK {
+		q := url.Values{}
+		if in.PIT == "set" || in.Listing != "logs" {
+			q.Set("pit", pitTime.Format(time.RFC3339Nano))
+		}
+		if in.Expand {
+			q.Add("expand", "volumes")
+		}
+		for _, p := range paths {
+			calls = append(calls, httpCall{"v2", http.MethodGet, p, q, body, q, tbody})
+			if hasCount(in.Listing) {
+				calls = append(calls, httpCall{"v2", http.MethodHead, p, q, body, q, tbody})
+			}
+			// the v1 count of accounts takes the same JSON in the `query` parameter
+			if in.Listing == "accounts" {
+				q1, t1 := url.Values{}, url.Values{}
+				q1.Set("query", body)
+				t1.Set("query", tbody)
+				calls = append(calls, httpCall{"v1", http.MethodHead, p, q1, "", t1, ""})
+			}
+		}
+	}
+	if q, t, ok := v1Params(in); ok {
+		if in.PIT == "set" {
+			q.Set("pit", pitTime.Format(time.RFC3339Nano))
+			t.Set("pit", pitTime.Format(time.RFC3339Nano))
+		}
+		for _, p := range paths {
+			calls = append(calls, httpCall{"v1", http.MethodGet, p, q, "", t, ""})
+			if in.Listing == "transactions" {
+				calls = append(calls, httpCall{"v1", http.MethodHead, p, q, "", t, ""})
+			}
+		}
+		if in.Listing == "accounts" {
+			calls = append(calls, httpCall{"v1", http.MethodGet, "/balances", q, "", t, ""})
+		}
+	}
+	return calls
+}
+
+func (h *harness) router(via string) chi.Router {
+	if via == "v1" {
+		return h.v1r
+	}
+	return h.v2r
+}
+
+// ---- oracle ---------------------------------------------------------------------------------------------------
+
+const marker = "zq1"
+
+func clientStrings(n Node) []string {
+	var out []string
+	var val func(v *Val)
+	val = func(v *Val) {
+		if v == nil {
+			return
+		}
+		switch v.K {
+		case "str":
+			out = append(out, string(v.S))
+		case "arr":
+			for i := range v.A {
+				val(&v.A[i])
+			}
+		case "obj":
+			for i := range v.O {
+				out = append(out, string(v.O[i].K))
+				val(&v.O[i].V)
+			}
+		}
+	}
+	n.leaves(func(l *Node) {
+		out = append(out, string(l.Key))
+		val(l.Val)
+	})
+	return out
+}
+
+func charClass(ss []string) string {
+	all := strings.Join(ss, "\x01")
+	switch {
+	case strings.Contains(all, "'"):
+		return "quote"
+	case strings.Contains(all, "?"):
+		return "placeholder"
+	case strings.Contains(all, "\\"):
+		return "backslash"
+	}
+	return "other"
+}
+
+func size(in Input) int {
+	n := 0
+	for _, s := range clientStrings(in.Tree) {
+		n += 4 + len(s)
+	}
+	return n
+}
+
+// check one captured statement list against the twin's; returns the failing clause or ""
+func judge(hostile, harmless outcome) (clause, detail string) {
+	if hostile.rejected() {
+		return "", ""
+	}
+	if harmless.rejected() {
+		return "accepted-but-twin-rejected", fmt.Sprintf("the filter was accepted (%q) but its harmless twin was rejected (%s)", hostile.one(), harmless.Err)
+	}
+	if len(hostile.SQL) != len(harmless.SQL) {
+		return "structure-differs", fmt.Sprintf("%d statements, the twin caused %d", len(hostile.SQL), len(harmless.SQL))
+	}
+	for i := range hostile.SQL {
+		a, b := scanSQL(hostile.SQL[i]), scanSQL(harmless.SQL[i])
+		if a.bad || a.comment {
+			return "comment-or-estring", fmt.Sprintf("the statement contains a comment, an E'' string or a $ in code position: %q", hostile.SQL[i])
+		}
+		switch a.final.k {
+		case sCode, sCodeE, sCodeDash, sCodeSlash, sInLitQ, sInIdentQ:
+		default:
+			return "unterminated", fmt.Sprintf("the statement ends inside a literal, identifier or comment: %q", hostile.SQL[i])
+		}
+		if a.blank != b.blank {
+			return "structure-differs", fmt.Sprintf("statement %q has another structure than the twin's %q", hostile.SQL[i], harmless.SQL[i])
+		}
+		s := hostile.SQL[i]
+		for off := 0; ; {
+			k := strings.Index(s[off:], marker)
+			if k < 0 {
+				break
+			}
+			for p := off + k; p < off+k+len(marker); p++ {
+				if a.states[p] != sInLit {
+					return "text-outside-literal", fmt.Sprintf("client text %q at offset %d of %q is not inside a literal", marker, p, s)
+				}
+			}
+			off += k + len(marker)
+		}
+	}
+	return "", ""
+}
+
+// ---- Coq printing ---------------------------------------------------------------------------------------------
+
+func coqVal(v *Val) (string, bool) {
+	if v == nil {
+		return "JNull", true
+	}
+	switch v.K {
+	case "str":
+		return "(JStr " + vx.CoqString(string(v.S)) + ")", true
+	case "int":
+		return "(JInt " + vx.CoqZ(fmt.Sprint(v.I)) + ")", true
+	case "bool":
+		return "(JBool " + vx.CoqBool(v.B) + ")", true
+	case "null":
+		return "JNull", true
+	case "arr":
+		var xs []string
+		for i := range v.A {
+			t, ok := coqVal(&v.A[i])
+			if !ok {
+				return "", false
+			}
+			xs = append(xs, t)
+		}
+		return "(JArr " + vx.CoqList(xs) + ")", true
+	case "obj":
+		var xs []string
+		seen := map[string]bool{}
+		for i := range v.O {
+			if seen[string(v.O[i].K)] {
+				return "", false
+			}
+			seen[string(v.O[i].K)] = true
+			t, ok := coqVal(&v.O[i].V)
+			if !ok {
+				return "", false
+			}
+			xs = append(xs, "("+vx.CoqString(string(v.O[i].K))+", "+t+")")
+		}
+		return "(JObj " + vx.CoqList(xs) + ")", true
+	}
+	return "", false // floats: strconv formatting is not modelled
+}
+
+func coqOp(o string) string {
+	return map[string]string{"$match": "OMatch", "$lt": "OLt", "$lte": "OLte", "$gt": "OGt", "$gte": "OGte"}[o]
+}
+
+func coqTree(n Node) (string, bool) {
+	switch n.T {
+	case "leaf":
+		v, ok := coqVal(n.Val)
+		if !ok || coqOp(n.Op) == "" {
+			return "", false
+		}
+		return "(QLeaf " + vx.CoqString(string(n.Key)) + " " + coqOp(n.Op) + " " + v + ")", true
+	case "not":
+		if len(n.Items) != 1 {
+			return "", false
+		}
+		t, ok := coqTree(n.Items[0])
+		return "(QNot " + t + ")", ok
+	}
+	var xs []string
+	for _, it := range n.Items {
+		t, ok := coqTree(it)
+		if !ok {
+			return "", false
+		}
+		xs = append(xs, t)
+	}
+	if n.T == "or" {
+		return "(QOr " + vx.CoqList(xs) + ")", true
+	}
+	return "(QAnd " + vx.CoqList(xs) + ")", true
+}
+
+func coqObs(frag string, o outcome, ok bool) (string, bool) {
+	if ok {
+		return "(ObsSQL " + vx.CoqString(frag) + ")", true
+	}
+	switch o.Err {
+	case "invalid":
+		return "(ObsErr true)", true
+	case "other", "panic":
+		return "(ObsErr false)", true
+	}
+	return "", false
+}
+
+func (h *harness) coqCase(r *vx.Run, in Input, tw Node, count bool, variant, cc string, emit bool) string {
+	if !emit {
+		return ""
+	}
+	ct, ok := coqTree(in.Tree)
+	if !ok || size(in) > maxCoqLen {
+		r.Count("coq:skipped")
+		return ""
+	}
+	frag, fo, fok := h.fragment(in, count, in.Tree)
+	if !fok && !fo.rejected() {
+		r.FailSized("fragment-not-delimited:"+in.Listing+":"+variant+":"+cc, in, "the WHERE fragment of the filter could not be found between the sentinel clauses: "+fo.one(), size(in))
+		return ""
+	}
+	tfrag, tfo, tfok := h.fragment(in, count, tw)
+	o1, ok1 := coqObs(frag, fo, fok)
+	o2, ok2 := coqObs(tfrag, tfo, tfok)
+	if !ok1 || !ok2 {
+		return ""
+	}
+	bl, ntok := "", 0
+	if fok {
+		sr := scanSQL("(" + frag + ")")
+		bl, ntok = sr.blank, tokenCount(sr.blank)
+	}
+	listing := map[string]string{"accounts": "LAccounts", "transactions": "LTransactions", "balances": "LBalances", "logs": "LLogs"}[in.Listing]
+	pit := map[string]string{"nil": "PNil", "zero": "PZero", "set": "PSet"}[in.PIT]
+	return fmt.Sprintf("{| c_listing := %s; c_pit := %s; c_ledger := %s; c_tree := %s; c_obs := %s; c_twin := %s; c_blank := %s; c_tokens := %d |}",
+		listing, pit, vx.CoqString(ledgerName), ct, o1, o2, vx.CoqString(bl), ntok)
+}
+
+// ---- one input ------------------------------------------------------------------------------------------------
+
+var maxCoqLen = 1500
+
+func (h *harness) one(r *vx.Run, in Input, emit bool) {
+	tw := twin(in.Listing, in.Tree)
+	strs := clientStrings(in.Tree)
+	cc := charClass(strs)
+	nontrivial := false
+	variants := []bool{false}
+	if hasCount(in.Listing) {
+		variants = append(variants, true)
+	}
+	fail := func(clause, variant, via, detail string) {
+		// shrink: give leaves their harmless value one at a time while the failure persists
+		cur := in
+		curTree := in.Tree
+		var idx int
+		var walk func(n Node) Node
+		target := -1
+		walk = func(n Node) Node {
+			if n.T == "leaf" {
+				me := idx
+				idx++
+				if me == target {
+					return twin(in.Listing, n)
+				}
+				return n
+			}
+			out := Node{T: n.T}
+			for _, it := range n.Items {
+				out.Items = append(out.Items, walk(it))
+			}
+			return out
+		}
+		nLeaves := 0
+		in.Tree.leaves(func(*Node) { nLeaves++ })
+		if via == "store" && nLeaves <= 12 {
+			for t := 0; t < nLeaves; t++ {
+				idx, target = 0, t
+				cand := walk(curTree)
+				ci := cur
+				ci.Tree = cand
+				a := h.runStore(ci, variant == "count", cand.builder())
+				b := h.runStore(ci, variant == "count", twin(in.Listing, cand).builder())
+				if c, _ := judge(a, b); c == clause {
+					curTree = cand
+				}
+			}
+			cur.Tree = curTree
+		}
+		classes := map[string]bool{}
+		ctw := twin(in.Listing, cur.Tree)
+		var twLeaves []Node
+		ctw.leaves(func(n *Node) { twLeaves = append(twLeaves, *n) })
+		li := 0
+		cur.Tree.leaves(func(n *Node) {
+			a, _ := json.Marshal(*n)
+			b, _ := json.Marshal(twLeaves[li])
+			li++
+			if !bytes.Equal(a, b) {
+				classes[keyClass(in.Listing, string(n.Key))] = true
+			}
+		})
+		var cl []string
+		for k := range classes {
+			cl = append(cl, k)
+		}
+		sort.Strings(cl)
+		sig := fmt.Sprintf("%s:%s:%s:%s:%s:%s", clause, in.Listing, variant, via, strings.Join(cl, "+"), charClass(clientStrings(cur.Tree)))
+		r.FailSized(sig, cur, detail, size(cur))
+	}
+	for _, count := range variants {
+		variant := "list"
+		if count {
+			variant = "count"
+		}
+		a := h.runStore(in, count, in.Tree.builder())
+		b := h.runStore(in, count, tw.builder())
+		if a.Err == "none" {
+			r.FailSized("harness:no-statement:"+in.Listing, in, "the call returned no error and sent no statement", size(in))
+			continue
+		}
+		if len(a.SQL) > 1 {
+			r.FailSized("harness:several-statements:"+in.Listing, in, a.one(), size(in))
+			continue
+		}
+		if !a.rejected() && cc != "other" {
+			nontrivial = true
+		}
+		if a.rejected() {
+			r.Count("outcome:rejected:" + a.Err)
+		} else {
+			r.Count("outcome:accepted")
+		}
+		if clause, detail := judge(a, b); clause != "" {
+			fail(clause, variant, "store", detail)
+		}
+		// Coq case
+		key, _ := json.Marshal(in)
+		r.Case(h.coqCase(r, in, tw, count, variant, cc, emit), map[string]any{"input": in, "variant": variant}, string(key)+variant, nontrivial)
+	}
+	// through the HTTP handlers
+	for _, c := range httpCalls(in, tw) {
+		a := h.runHTTP(h.router(c.via), c.method, c.path, c.q, c.body)
+		b := h.runHTTP(h.router(c.via), c.method, c.path, c.tq, c.tbody)
+		r.Count("http:" + c.via)
+		r.Sum.Evaluations++
+		if clause, detail := judge(a, b); clause != "" {
+			variant := "list"
+			if c.method == http.MethodHead {
+				variant = "count"
+			}
+			fail(clause, variant, c.via, detail+fmt.Sprintf(" [%s %s?%s body=%q]", c.method, c.path, c.q.Encode(), c.body))
+		}
+	}
+	r.Count("listing:" + in.Listing)
+	r.Count("chars:" + cc)
+	in.Tree.leaves(func(n *Node) { r.Count("key:" + keyClass(in.Listing, string(n.Key))) })
+}
+
+// ---- generation -----------------------------------------------------------------------------------------------
+
+var hostile = []string{
+	"a' or zq1=1 --", "x:'); drop table zq1;--", "'", "''", "a''b", "'; select zq1 --", "' or 'zq1'='zq1",
+	"\\", "\\'", "\\' or zq1=1 --", "a\\?b", "\\\\?", "?", "??", "x?(", "?(", "?)", "?()", "x?(zq1)y", "?0", "?1", "?2 zq1", "?TableName", "?TableAlias zq1",
+	"?ledger", "$1", "$$", "$zq1$", "/*", "*/", "/* zq1 */", "*/ zq1 /*", "--", "-- zq1", "a\n-- zq1", "a\r\n zq1", "\x00", "a\x00'b zq1", "zq1\x00",
+	"\n", "\t", "é zq1", "日本 zq1'", "\xff", "\xc3'", "\xe2\x80'", "\xf0\x9f\x98\x80'", "\xe2\x80\xa8", "\xe2\x80\xa9'", "\xed\xa0\x80'", "<script>&'", "\\u0000", "\\u0000'", "\"", "\\\"",
+	"\"}') or zq1=1 --", "\"]') or zq1=1 --", "E'zq1'", "e'\\'", "a b", "a;b", "%", "_", "[", "]", "a]b", "metadata[x]", "{}", "{\"a\":1}", "null", "true", "1", "-1", "1e9",
+	"users:001", "users:", ":001", "::", ":", "a:b:c:d:e:f:g:h:i:j:k:l", "a::b:c:d:e:f:g:h:i:j:k:l", "users:zq1' or '1'='1", "a-b:c_d", "a-:b", "-a", "a--b", "users:\\?", "u:?(", "u'::x",
+	"world", "abc", "",
+}
+
+func genString(g *vx.Rng, long bool) string {
+	switch g.Intn(10) {
+	case 0, 1, 2, 3, 4:
+		return hostile[g.Intn(len(hostile))]
+	case 5:
+		return hostile[g.Intn(len(hostile))] + hostile[g.Intn(len(hostile))]
+	case 6:
+		alpha := "'\\?()-/*$\"\x00\n:ab1_ \xc3\xa9"
+		n := 1 + g.Intn(12)
+		b := make([]byte, n)
+		for i := range b {
+			b[i] = alpha[g.Intn(len(alpha))]
+		}
+		return string(b)
+	case 7:
+		n := 1 + g.Intn(6)
+		b := make([]byte, n)
+		for i := range b {
+			b[i] = byte(g.Intn(256))
+		}
+		return string(b)
+	case 8:
+		if long {
+			n := 200 + g.Intn(900)
+			return strings.Repeat("a", n) + hostile[g.Intn(len(hostile))] + strings.Repeat("'", g.Intn(3))
+		}
+		return "abc"
+	}
+	// a valid address pattern
+	segs := []string{"users", "001", "", "a-b", "x_1", "world", "", "ZZ9"}
+	n := 1 + g.Intn(4)
+	var parts []string
+	for i := 0; i < n; i++ {
+		parts = append(parts, segs[g.Intn(len(segs))])
+	}
+	return strings.Join(parts, ":")
+}
+
+func genVal(g *vx.Rng, depth int, long bool) Val {
+	switch g.Intn(14) {
+	case 0:
+		return Val{K: "int", I: int64(g.Intn(2000)) - 1000}
+	case 1:
+		return Val{K: "int", I: int64(g.U64()>>11) - (1 << 52)}
+	case 2:
+		return Val{K: "bool", B: g.Bool()}
+	case 3:
+		return Val{K: "null"}
+	case 4:
+		if depth < 2 {
+			n := g.Intn(3)
+			v := Val{K: "arr"}
+			for i := 0; i < n; i++ {
+				v.A = append(v.A, genVal(g, depth+1, false))
+			}
+			return v
+		}
+	case 5:
+		if depth < 2 {
+			n := g.Intn(3)
+			v := Val{K: "obj"}
+			seen := map[string]bool{}
+			for i := 0; i < n; i++ {
+				k := genString(g, false)
+				if seen[k] {
+					continue
+				}
+				seen[k] = true
+				v.O = append(v.O, KV{BStr(k), genVal(g, depth+1, false)})
+			}
+			return v
+		}
+	case 6:
+		return Val{K: "float", F: []float64{1.5, -0.25, 1e21, 1e-7, 123456.789}[g.Intn(5)]}
+	}
+	return Val{K: "str", S: BStr(genString(g, long))}
+}
+
+var ops = []string{"$match", "$match", "$match", "$lt", "$lte", "$gt", "$gte"}
+
+func genKey(g *vx.Rng, listing string) string {
+	var keys []string
+	switch listing {
+	case "accounts":
+		keys = []string{"address", "address", "address", "metadata[@]", "metadata[@]", "balance[@]", "balance", "xmetadata[@]y", "metadata[]", "metadata", "balance[", "balance[]", "foo", "", "address ", "balance[metadata[@]]"}
+	case "transactions":
+		keys = []string{"reference", "reference", "timestamp", "account", "account", "source", "destination", "metadata[@]", "metadata[@]", "id", "date", "foo", "xmetadata[@]", "metadata[]"}
+	case "balances":
+		keys = []string{"address", "address", "address", "metadata[@]", "metadata[@]", "balance", "foo", "metadata[]"}
+	default:
+		keys = []string{"date", "date", "date", "date", "id", "foo", "metadata[@]"}
+	}
+	k := keys[g.Intn(len(keys))]
+	if strings.Contains(k, "@") {
+		inner := "k1"
+		if g.Chance(2, 3) {
+			inner = genString(g, false)
+		}
+		k = strings.Replace(k, "@", inner, 1)
+	}
+	return k
+}
+
+func genTree(g *vx.Rng, listing string, depth int, long bool) Node {
+	if depth >= 3 || g.Chance(3, 5) {
+		v := genVal(g, 0, long)
+		return Node{T: "leaf", Key: BStr(genKey(g, listing)), Op: ops[g.Intn(len(ops))], Val: &v}
+	}
+	switch g.Intn(5) {
+	case 0:
+		return Node{T: "not", Items: []Node{genTree(g, listing, depth+1, long)}}
+	case 1, 2:
+		n := Node{T: "or"}
+		for i, k := 0, g.Intn(4); i < k; i++ {
+			n.Items = append(n.Items, genTree(g, listing, depth+1, long))
+		}
+		return n
+	}
+	n := Node{T: "and"}
+	for i, k := 0, g.Intn(4); i < k; i++ {
+		n.Items = append(n.Items, genTree(g, listing, depth+1, long))
+	}
+	return n
+}
+
+var listings = []string{"accounts", "transactions", "balances", "logs"}
+
+func main() {
+	r := vx.Start("C20", "sqltext")
+	r.Cases("From FL Require Import SqlText.Model.\n", "case", 300)
+	r.Sum.Rule = "filter trees ($match/$lt/$lte/$gt/$gte/and/or/not) over every key of each listing (address, account, source, destination, metadata[..], balance[..], balance, reference, timestamp, date, unknown keys) with hostile values (quotes, backslashes, ?, ?(, \\?, $1, --, /* */, NUL, newlines, invalid UTF-8, non-ASCII, long, nested JSON) sent through GetAccountsWithVolumes, CountAccounts, GetTransactions, CountTransactions, GetAggregatedBalances, GetLogs of the real store over a recording driver and through the real v1/v2 handlers; non-trivial = accepted by the store and some client string contains a quote, backslash or ?; distinct by the JSON of the input and list/count"
+	h := newHarness()
+	docs, replayOnly := r.Inputs()
+	for _, d := range docs {
+		var in Input
+		if err := json.Unmarshal(d, &in); err == nil && in.Listing != "" {
+			if in.PIT == "" {
+				in.PIT = "nil"
+			}
+			h.one(r, in, true)
+		}
+	}
+	if replayOnly {
+		r.Finish()
+		return
+	}
+	// systematic part: every key of every listing x every operator x every hostile string, as a single leaf
+	sysKeys := map[string][]string{
+		"accounts":     {"address", "metadata[k1]", "balance[USD]", "balance"},
+		"transactions": {"reference", "timestamp", "account", "source", "destination", "metadata[k1]"},
+		"balances":     {"address", "metadata[k1]"},
+		"logs":         {"date"},
+	}
+	nsys := 0
+	for _, l := range listings {
+		for _, k := range sysKeys[l] {
+			for hi, s := range hostile {
+				for oi, op := range []string{"$match", "$lt"} {
+					if oi == 1 && (hi%7 != 0 || keyClass(l, k) == "addr") {
+						continue
+					}
+					in := Input{Listing: l, PIT: []string{"nil", "set", "zero"}[(hi+oi)%3], Tree: Node{T: "leaf", Key: BStr(k), Op: op, Val: &Val{K: "str", S: BStr(s)}}}
+					h.one(r, in, r.Thorough() || nsys%2 == 0)
+					nsys++
+					// the same string as a metadata key / asset
+					if hi%3 == 0 && strings.Contains(k, "[") && oi == 0 {
+						kk := k[:strings.Index(k, "[")] + "[" + s + "]"
+						h.one(r, Input{Listing: l, PIT: "nil", Tree: Node{T: "leaf", Key: BStr(kk), Op: op, Val: &Val{K: "str", S: "v"}}}, r.Thorough() || nsys%2 == 0)
+					}
+				}
+			}
+		}
+	}
+	// random trees
+	g := vx.NewRng(r.Seed)
+	N := 1500
+	if r.Thorough() {
+		N = 120000
+		maxCoqLen = 4000
+	}
+	for i := 0; i < N; i++ {
+		l := listings[g.Intn(len(listings))]
+		in := Input{Listing: l, PIT: []string{"nil", "nil", "set", "zero"}[g.Intn(4)], Expand: g.Chance(1, 5), Tree: genTree(g, l, 0, g.Chance(1, 20))}
+		emit := true
+		if r.Thorough() {
+			emit = i%8 == 0
+		}
+		h.one(r, in, emit)
+	}
+	r.Finish()
 }
